@@ -10,7 +10,7 @@ from simkit.world import digest
 ID = "C26"
 LEVEL = "exploration"
 ENGINE = "simkit/proxy-world"
-QUICK_RUNS = 6000
+QUICK_RUNS = 15000
 QUICK_BUDGET_S = 150
 THOROUGH_BUDGET_S = 900
 CHUNK = 50
@@ -43,12 +43,13 @@ HOSTS = ["www", "mail", "ns1", "ns2", "cdn", "_sip", "_tcp", "_dmarc", "a", "WWW
 UNKNOWN_TYPES = [43, 46, 48, 99, 257, 65, 65280, 52, 255]
 
 
-def _name(r, zone, depth=None):
+def _name(r, zone, depth=None, dotted=False):
+    """dotted: this is a mailbox name (SOA RNAME), where a dot inside the first label is common ('first.last@...')"""
     n = r.choice([0, 1, 1, 1, 2, 3]) if depth is None else depth
     labels = [r.choice(HOSTS) for _ in range(n)] + list(zone)
     if r.random() < 0.03:
         labels[r.randrange(len(labels))] = r.choice(IDN_2008)
-    if r.random() < 0.03:
+    if r.random() < (0.2 if dotted else 0.004):
         labels.insert(0, r.choice(["first.last", "dns.admin", "a.b"]))  # a label that contains a dot (RFC 1035 5.1 '\.')
     while sum(len(x) + 1 for x in labels) > 250:
         labels.pop(0)
@@ -88,7 +89,7 @@ def _rdata(r, t, zone, comp):
     if t == D.MX:
         return [["b", S(_u16(r, [0, 10, 10, 20, 50, 0xC00C, 49152, 65535]))], ["n", _name(r, zone), c]]
     if t == D.SOA:
-        return [["n", _name(r, zone, 1), c], ["n", _name(r, zone, 1), 1 if comp and r.random() < 0.85 else 0],
+        return [["n", _name(r, zone, 1), c], ["n", _name(r, zone, 1, dotted=True), 1 if comp and r.random() < 0.85 else 0],
                 ["b", S(_u32(r, [2024010101, 1, 2024010101, 0xC00C0001, 3221225484, 4294967295]) +
                         _u32(r, [7200, 3600, 86400]) + _u32(r, [900, 3600]) + _u32(r, [1209600, 604800]) +
                         _u32(r, [300, 3600, 86400, 49164]))]]
@@ -204,6 +205,47 @@ def generate(rng, tier):
     return sc
 
 
+def shrink_candidates(sc):
+    import copy
+    # an exchange = a send op and the reply op that answers it: drop whole exchanges (keeps the ks indices valid)
+    sends = [i for i, op in enumerate(sc["ops"]) if op["op"] == "send"]
+    if len(sends) > 1:
+        for n, i in enumerate(sends):
+            c = copy.deepcopy(sc)
+            keep = []
+            k = 0
+            for j, op in enumerate(c["ops"]):
+                if j == i or (op["op"] == "reply" and op.get("ks") == [n]):
+                    continue
+                keep.append(op)
+            for op in keep:
+                if op["op"] == "reply":
+                    op["ks"] = [k]
+                    k += 1
+            c["ops"] = keep
+            yield c
+    if any(op.get("cuts") for op in sc["ops"]):
+        c = copy.deepcopy(sc)
+        for op in c["ops"]:
+            op["cuts"] = []
+        yield c
+    if sc.get("eager"):
+        c = copy.deepcopy(sc)
+        c["eager"] = False
+        yield c
+    # simpler names
+    for i, op in enumerate(sc["ops"]):
+        spec = op["messages"][0] if op["op"] == "send" else op.get("reply") if op["op"] == "reply" else None
+        if not spec:
+            continue
+        for j, rec in enumerate(spec.get("records", [])):
+            if len(rec["name"]) > 2:
+                c = copy.deepcopy(sc)
+                tgt = c["ops"][i]["messages"][0] if op["op"] == "send" else c["ops"][i]["reply"]
+                tgt["records"][j]["name"] = rec["name"][-2:]
+                yield c
+
+
 # ---------------------------------------------------------------------------
 # oracle
 # ---------------------------------------------------------------------------
@@ -293,7 +335,8 @@ def compare(sent: bytes, got: bytes, direction: str):
             nb, tb, cb, ttlb, rdb = rb
             tn = D.type_name(ta)
             if (ta, ca, ttla) != (tb, cb, ttlb):
-                out.append(("record_header_changed", {"rtype": tn},
+                fields = [f for f, x, y in (("type", ta, tb), ("class", ca, cb), ("ttl", ttla, ttlb)) if x != y]
+                out.append(("record_header_changed", {"fields": fields, "opt": ta == D.OPT},
                             f"{direction}: {sec}[{i}] type/class/ttl sent {(ta, ca, ttla)}, delivered {(tb, cb, ttlb)}"))
             if na != nb:
                 out.append(("owner_name_changed", {"cause": _names_cause([a[sec][i][0]])},
